@@ -262,6 +262,8 @@ def cargo_build(ctx, features, bins, release=False):
         cmd.append('--release')
     for b in bins:
         cmd += ['--bin', b]
+    if not bins:
+        cmd.append('--lib')
     t = time.time()
     rc, out = sh(cmd, cwd=HARNESS, timeout=7200)
     log('cargo build %s [%s] rc=%d %.1fs' % (','.join(bins), features, rc, time.time() - t))
